@@ -103,6 +103,10 @@ def explore(backend, fn, max_paths=200):
             prop, info = fn(p)
         except Unsupported as e:
             return {"verdict": "INCONCLUSIVE", "paths": paths, "reason": "outside zproxy's subset: %s" % e}
+        except Exception as e:
+            # e.g. the code under test now uses an operation the proxies do not model (AttributeError on a proxy), or it
+            # raised on this path: E2 gives no verdict (the E1 layer decides), it never raises an alarm on its own here
+            return {"verdict": "INCONCLUSIVE", "paths": paths, "reason": "lemma raised %s: %s" % (type(e).__name__, e)}
         finally:
             Path.cur = None
         paths += 1
